@@ -57,18 +57,19 @@ THEMES = [
           {1: {1: ("A-B", "A - B"), 2: ("A-A", "A -A"), 3: ("B-B", "B- B")},
            2: {1: ("nr", "n r"), 2: ("cutoff", "cut off"), 3: ("target", "tar get")},
            3: {1: ("f(r,a)", "f(r, a)"), 2: ("g(r)", "g( r)"), 3: ("h(r,a,b)", "h(r,a, b)")}},
-          {(1, 1): ["as.polynomial 1 2", "as.polynomial 3 -1 2", "f 2.0", ""],
-           (1, 2): ["as.polynomial 2 1", "as.polynomial 5 1 -1", "g", ""],
+          # values may themselves contain '=' (range markers, comparisons in a formula): an option is split at its FIRST '=' only
+          {(1, 1): ["as.polynomial 1 2", ">=0 as.polynomial 3 -1 2 >=1.5 as.zero", "f 2.0", ""],
+           (1, 2): ["as.polynomial 2 1", ">=0.5 as.polynomial 5 1 -1", "g", ""],
            (1, 3): ["as.polynomial 4 3", "as.polynomial 6 0 1", "h 1.0 2.0", ""],
            (2, 1): ["6", "5", "9", ""],
            (2, 2): ["2.0", "4.0", "3.5", ""],
            (2, 3): ["LAMMPS", "GULP", "DL_POLY", ""],
-           (3, 1): ["a*r", "a+r", "a-r", ""],
+           (3, 1): ["a*r", "if(r <= 1, a, a+r)", "a-r", ""],
            (3, 2): ["r", "2*r", "r^2", ""],
            (3, 3): ["a+b*r", "a*b", "a-b", ""]}),
     Theme("eam", {1: "EAM-Embed", 2: "EAM-Density", 3: "Notes"},
           {1: _SP, 2: _SP, 3: _SP},
-          dict([((s, k), ["as.polynomial %d 1" % (10 * s + k), "as.polynomial %d 2 1" % (10 * s + k), "as.polynomial %d 0 3" % (10 * s + k), ""])
+          dict([((s, k), ["as.polynomial %d 1" % (10 * s + k), ">=0 as.polynomial %d 2 1" % (10 * s + k), "as.polynomial %d 0 3" % (10 * s + k), ""])
                 for s in (1, 2) for k in (1, 2, 3)] + [((3, k), ["note", "another note", "third", ""]) for k in (1, 2, 3)]),
           preamble="[Tabulation]\ntarget : setfl\nnr : 5\ncutoff : 2.0\nnrho : 4\ncutoff_rho : 3.0\n\n[Pair]\nAl-Al : as.polynomial 1 1\n",
           preamble_items=["Tabulation:target=setfl", "Tabulation:nr=5", "Tabulation:cutoff=2.0", "Tabulation:nrho=4", "Tabulation:cutoff_rho=3.0",
